@@ -323,10 +323,8 @@ theorem d_tdBase (w : World) (i : Nat) (s : Sess) : DStep w (tdBase w i s) := by
 theorem d_teardown (w : World) (i : Nat) (s : Sess) : DStep w (teardown w i s).1 := by
   rw [teardown_eq]
   split
+  · exact (d_tdBase w i s).trans (d_sessDelete _ _ _)
   · exact d_tdBase w i s
-  · split
-    · exact d_tdBase w i s
-    · exact (d_tdBase w i s).trans (d_sessDelete _ _ _)
 
 theorem d_shutdown (w : World) (i : Nat) (sid : String) : DStep w (w.shutdownSession i sid) := by
   cases hs : (w.node i).sess sid with
